@@ -88,7 +88,7 @@ def p_c09(facts, rep, tier):
         "truncated only after the meta switch-over (shared with C03/C17 order rules); (v) S1: the reverse-delta worker (and Session::read) fall back to the store only when the overlay chain has NO entry for the key - an overlay delete is a final answer; "
         "(iv) M1: the in-memory image of the log (InMemory.log) is "
         "mutated only by InMemory's own one-record push_back / pop_back / pop_front, reached only from commit + replay, Rollback::truncate and "
-        "writeout_start respectively. (vi) E1/E2: Delta::encode inspects the variant of every prior (or at least feeds no variant-forgetting combinator into the output) and Delta::decode can build both None and Some priors - the persistent form keeps `absent` and `empty value` apart. Restored values are not decided."
+        "writeout_start respectively. (vii) K1: in Nomt::rollback every success path from Rollback::truncate to the return passes the rollback's own FinishedSession::commit (no Ok short-cut after the truncation); (vi) E1/E2: Delta::encode inspects the variant of every prior (or at least feeds no variant-forgetting combinator into the output) and Delta::decode can build both None and Some priors - the persistent form keeps `absent` and `empty value` apart. Restored values are not decided."
     )
     n_fn, n_eff, n_guard = guardfx.run(facts, rep, "C09")
     import sessionsem
@@ -116,6 +116,7 @@ def p_c09(facts, rep, tier):
     import codec
 
     codec.run(facts, rep)
+    guardfx.rollback_commits_after_truncate(facts, rep)
     rep.floor("C09 guardfx functions", n_fn, 2)
     rep.floor("C09 guardfx guards", n_guard, 2)
     rep.assume("path feasibility is ignored", "effect table as in rules/guardfx.py")
